@@ -145,6 +145,7 @@ class Contract:
                 if k not in have:
                     have[k] = shp.fresh(st, k)
                 vals[f"g_{k}"] = have[k]
+        vals["old"] = View({k: v.snapshot() for k, v in vals.items() if isinstance(v, (LRef, DRef, SObj))})
         a = View(vals)
         where = f"call-pre@{f.ref.qualname}:{(site or '').split(':')[-1]}"
         pre = self.requires(self_obj, a) if self_obj is not None else self.requires(a)
@@ -201,6 +202,11 @@ class Contract:
                         det_terms.append(z3.IntVal(st.ghost.get("ver", {}).get(str(v.e), 0)))
         old = self_obj.snapshot() if self_obj is not None else None
         saved_trace = None
+        for name in getattr(self, "modifies_args", ()):
+            tgt = vals.get(name)
+            if isinstance(tgt, LRef):
+                shp = self.params[name]
+                tgt.seq = shp.fresh_seq(st, f"{name}'")
         if self_obj is not None:
             self.havoc(st, self_obj)
             # the callee's contract speaks about the events of *this* call only
@@ -475,8 +481,9 @@ class VerifyTask:
         setup = getattr(c, "setup", None)
         if setup is not None:
             setup(st, self_obj, vals)
+        vals["old"] = View({k: v.snapshot() for k, v in vals.items() if isinstance(v, (LRef, DRef, SObj))})
         a = View(vals)
-        inputs = dict(vals)
+        inputs = {k: v for k, v in vals.items() if k != "old"}
         if self_obj is not None:
             inputs["self"] = self_obj.snapshot()
         ex.inputs = inputs
@@ -495,7 +502,7 @@ class VerifyTask:
         f = FnVal(self.ref, None, None, self.defcls())
         f.top_level = True
         args = ([self_obj] if self_obj is not None else []) + []
-        kwargs = {k: v for k, v in vals.items() if not k.startswith("g_")}
+        kwargs = {k: v for k, v in vals.items() if not k.startswith("g_") and k != "old"}
         # positional binding by parameter name
         try:
             result = ip.run_function(st, f, args, kwargs)
